@@ -180,5 +180,17 @@ CHECKS = {
           "not produce. Exactness of sums under concurrent readers is not decided.",
   "note": "Trusted: clang 14 CFG; ConcurrentVector (C04) and IdAllocator (C14).",
   "technique": "static analysis: ordering/dominance, resolved-callee (who sums over what), edge-guard and special-member completeness rules over CFG facts"},
+ "C20": {
+  "text": "Decides the page-conservation and hand-off clauses of the logging path: the writer (and discard) collect the iov_base of every "
+          "iovec into one vector, return it whole by deallocate(v.data(), v.size()), then clear both vectors on every path, with one chunk "
+          "size bounding collection, writev and iterator advance; each page-table page is emitted once with length 0 right after its data "
+          "pages and before moving to the next table; the stream buffer stores every allocated page into the current slot, links a fresh "
+          "table exactly once (head or last->next), saves the data page in the head slot before overwriting it and terminates the chain; "
+          "the writer thread can exit after a pop only through the write-out of that pop's entries, the size-0 marker is what the consumer "
+          "tests, close pushes it before join, the destructor closes. Page conservation across the asynchronous hand-off is a property of "
+          "all interleavings and of entry lengths no test enumerates. The inline/page-table boundary arithmetic, per-thread order in the "
+          "file and partial writev are not decided; observation O1 (close()'s sleeping push vs. the non-waking consumer) is printed as a NOTE.",
+  "note": "Trusted: clang 14 CFG; writev/FileObject opaque; PageAllocator opaque; the appender queue (C01/C02).",
+  "technique": "static analysis: resource-flow, must-pass-through, exactly-once linking and ordering rules over CFG facts"},
 }
 NOT_APPLICABLE = {("C%02d" % i): PENDING for i in range(1, 21) if ("C%02d" % i) not in CHECKS}
